@@ -848,6 +848,17 @@ def variants():
         Variant("g-relabel-accepted-walkers", "bad", _ia(mc, "BaseMCMCRunner.run", "self.logl[mask_accept] = logl_prime[mask_accept]", "self.assignments[mask_accept] = np.argmin(np.linalg.norm(self.u[mask_accept][:, None, :] - self.mode_stats.means[None, :, :], axis=2), axis=1)"), ["C03.g"], quick=True),
         Variant("i-logl-aliases-callers-array", "bad", replace_stmt(mc, "BaseMCMCRunner.__init__", "self.logl = logl.copy()", "self.logl = np.asarray(logl, dtype=float)"), ["C03.i"], quick=True),
         Variant("i-benign-logl-np-array-copy", "benign", replace_stmt(mc, "BaseMCMCRunner.__init__", "self.logl = logl.copy()", "self.logl = np.array(logl, dtype=float)")),
+        # the kernel's own position array: new arrays only (it is updated in place on acceptance)
+        Variant("i-benign-u-np-copy", "benign", replace_stmt(mc, "BaseMCMCRunner.__init__", "self.u = u.copy()", "self.u = np.copy(u)")),
+        Variant("i-benign-u-np-array-copy-true", "benign", replace_stmt(mc, "BaseMCMCRunner.__init__", "self.u = u.copy()", "self.u = np.array(u, copy=True)")),
+        Variant("i-benign-u-astype-default", "benign", replace_stmt(mc, "BaseMCMCRunner.__init__", "self.u = u.copy()", "self.u = u.astype(float)")),
+        Variant("i-u-is-alias-np-array-copy-false", "bad", replace_stmt(mc, "BaseMCMCRunner.__init__", "self.u = u.copy()", "self.u = np.array(u, copy=False)"), ["C03.i"]),
+        Variant("i-u-is-alias-view", "bad", replace_stmt(mc, "BaseMCMCRunner.__init__", "self.u = u.copy()", "self.u = u.view()"), ["C03.i"]),
+        Variant("i-u-is-alias-ellipsis-slice", "bad", replace_stmt(mc, "BaseMCMCRunner.__init__", "self.u = u.copy()", "self.u = u[...]"), ["C03.i"]),
+        Variant("i-u-is-alias-reshape-same", "bad", replace_stmt(mc, "BaseMCMCRunner.__init__", "self.u = u.copy()", "self.u = u.reshape(u.shape)"), ["C03.i"]),
+        Variant("i-u-is-alias-astype-copy-false", "bad", replace_stmt(mc, "BaseMCMCRunner.__init__", "self.u = u.copy()", "self.u = u.astype(float, copy=False)"), ["C03.i"]),
+        Variant("i-u-is-alias-ascontiguous", "bad", replace_stmt(mc, "BaseMCMCRunner.__init__", "self.u = u.copy()", "self.u = np.ascontiguousarray(u)"), ["C03.i"]),
+        Variant("i-u-is-alias-atleast-2d", "bad", replace_stmt(mc, "BaseMCMCRunner.__init__", "self.u = u.copy()", "self.u = np.atleast_2d(u)"), ["C03.i"]),
         Variant("h-redraw-lost-in-copy", "bad", _ia(mc, "BaseMCMCRunner.run", "u_prime[k] = self._propose(k)", "bad = np.flatnonzero(~check_bounds(u_prime, self.periodic, self.reflective))\ninside = check_bounds(u_prime[bad], self.periodic, self.reflective)\nu_prime[bad][inside] = 0.5"), ["C03.h"], quick=True),
         Variant("h-benign-redraw-stored-by-index", "benign", _ia(mc, "BaseMCMCRunner.run", "u_prime[k] = self._propose(k)", "bad = np.flatnonzero(~check_bounds(u_prime, self.periodic, self.reflective))\ninside = check_bounds(u_prime[bad], self.periodic, self.reflective)\nu_prime[bad[inside]] = u_prime[bad[inside]]")),
         Variant("g-benign-local-label-view", "benign", _ia(mc, "BaseMCMCRunner.run", "self.logl[mask_accept] = logl_prime[mask_accept]", "labels_now = self.assignments[mask_accept]")),
